@@ -5,7 +5,7 @@ SPEC = dict(
     lean_targets=["SwayVerif.Props.C14"], audit="SwayVerif/Audit/C14.lean",
     theorems=[],  # filled below
     steps=[dict(bin="sv_c14", area="c14", n_quick=1000, n_thorough=12000, corpus="corpus/c14.txt",
-                dist_keys=("why", "fragment", "witness", "bf", "arms", "ran", "orarm", "orlastdead"), timeout=3000,
+                dist_keys=("why", "fragment", "witness", "bf", "arms", "ran", "orarm", "orlastdead", "enummix"), timeout=3000,
                 nontrivial=lambda case, impl, kv: kv.get("arms", "1") != "1"),
            # systematic block: every 2-/3-arm matrix with an or-pattern arm (2-3 alternatives, every order) over
            # bool, a 2-variant enum, u8 {3,7,_}, and the or-pattern nested in a tuple component
